@@ -343,7 +343,12 @@ def c09(ctx):
               {"fen": "4k3/8/8/8/1p1p1p2/8/P1P1P1P1/4K3 w - -", "depth": 4},
               {"fen": "4k3/p1p1p1p1/8/1P1P1P2/8/8/8/4K3 b - -", "depth": 4},
               {"fen": "6k1/8/8/8/1p1p4/1k6/P1P1P3/4K2R w - -".replace("1k6", "8"), "depth": 4},
-              {"fen": "2b5/8/8/8/p1pp4/8/1P2PP2/R3K3 w Q -", "depth": 4}]
+              {"fen": "2b5/8/8/8/p1pp4/8/1P2PP2/R3K3 w Q -", "depth": 4},
+              # the same kind of tree a few plies before the move-count draw: every task's private clock must agree
+              {"fen": "4k3/8/8/8/1p1p1p2/8/P1P1P1P1/4K3 w - -", "depth": 4, "hm": 95},
+              {"fen": "4k3/p1p1p1p1/8/1P1P1P2/8/8/8/4K3 b - -", "depth": 4, "hm": 96},
+              {"fen": "4k3/8/8/3pP3/3Pp3/8/2P2p2/4K3 w - -".replace("2P2p2", "2P2P2"), "depth": 4, "hm": 96},
+              {"fen": "6k1/2p2p2/8/1P2P1P1/8/8/8/6K1 b - -", "depth": 4, "hm": 95}]
     np_ = ctx.path("native_cases.json")
     with open(np_, "w") as f:
         json.dump(NATIVE, f)
